@@ -39,13 +39,13 @@ def canon(r):
     if r is None or isinstance(r, (bool, int, float, str, np.generic)):
         return r
     if isinstance(r, np.ndarray):
-        return r
+        return r.copy()                 # (a snapshot: a result that aliases library state must not follow later changes of that state)
     if isinstance(r, (list, tuple)):
         return tuple(canon(v) for v in r)
     if isinstance(r, dict):
         return tuple((k, canon(v)) for k, v in sorted(r.items()))
     out = []
-    for attr in ("transform", "IM", "angular_integration", "radial", "Beta", "projection", "func", "abel", "r", "dr", "image", "c"):
+    for attr in ("transform", "IM", "angular_integration", "radial", "Beta", "projection", "func", "abel", "r", "dr", "image", "c", "valid"):
         if hasattr(r, attr):
             v = getattr(r, attr)
             out.append((attr, canon(v() if callable(v) and attr in ("image",) else v) if not callable(v) else None))
@@ -89,8 +89,12 @@ def scribble(r):
                 scribble(v)
         if hasattr(r, "distr"):
             scribble(r.distr.cn)
+            if isinstance(getattr(r.distr, "valid", None), np.ndarray):
+                r.distr.valid[...] = True
         if hasattr(r, "cn"):
             scribble(r.cn)
+        if isinstance(getattr(r, "valid", None), np.ndarray):
+            r.valid[...] = True                      # (flags of radii without data: the caller may overwrite them too)
 
 
 def map_arrays(x, f):
@@ -163,6 +167,12 @@ def registry(rng):
     add("rbasex_transform", abel.rbasex.rbasex_transform, sq, weights=w, order=2)
     add("rbasex_transform/forward", abel.rbasex.rbasex_transform, sq, direction="forward", origin=(9, 11), out="full")
     add("rbasex_transform/pos", abel.rbasex.rbasex_transform, ring, reg="pos")
+    wring = np.ones((n, n))
+    wring[(rr > 3.5) & (rr < 6.5)] = 0                                          # radii without data: `valid` flags matter
+    add("rbasex_transform/masked-ring", abel.rbasex.rbasex_transform, sq, weights=wring)
+    add("rbasex_transform/list-origin", abel.rbasex.rbasex_transform, sq, origin=[9, 11])
+    add("rbasex_transform/array-origin", abel.rbasex.rbasex_transform, sq, origin=np.array([9, 11]))
+    add("Distributions/masked-ring", vmi.Distributions(weights=wring.copy()).image, sq)          # one analysis object, called repeatedly
     add("Transform", abel.Transform, sq, method="hansenlaw", origin=(9.5, 10.2), symmetry_axis=0,
         transform_options=dict(dr=0.5), center_options=dict(crop="maintain_data"), angular_integration=True,
         angular_integration_options=dict(dt=0.1))
@@ -191,6 +201,7 @@ def registry(rng):
     add("radial_integration", vmi.radial_integration, ring, radial_ranges=[(2, 5), (5, 9)])
     add("anisotropy_parameter", vmi.anisotropy_parameter, theta, 2.0 * (1 + 0.7 * (3 * np.cos(theta) ** 2 - 1) / 2), theta_ranges=[(-3, -1), (0.5, 2.5)])
     add("toPES", vmi.toPES, r1, i1, 1.3e-5, photon_energy=1.0, Vrep=-2000.0)
+    add("toPES/array-calibration", vmi.toPES, r1, i1, np.array(1.3e-5), Vrep=-2000.0)
     add("Distributions.image", lambda IM, weights: vmi.Distributions(origin=(10, 9), order=4, weights=weights).image(IM), ring, w)
     add("Distributions.image/nearest-odd", lambda IM: vmi.Distributions(origin="cc", order=3, method="nearest", use_sin=False).image(IM), ring)
     add("harmonics", vmi.harmonics, ring, order=4)
@@ -279,7 +290,11 @@ def runtime(ck, tier, deep):
         if snapshot((a, k)) != snap:
             ck.violation(dict(sig, clause="argument-modified"), rep, f"{label} modified one of its arguments")
         # repeated call, bit-identical
-        r2 = canon(call(f, a, k))
+        try:
+            r2 = canon(call(f, a, k))
+        except Exception as e:
+            ck.violation(dict(sig, clause="not-repeatable"), rep, f"{label}: a second call with the same arguments raised {type(e).__name__}: {e}")
+            continue
         if not same(r1, r2):
             ck.violation(dict(sig, clause="not-repeatable"), rep, f"{label}: a second call with the same arguments returned different bits")
         # the caller edits its own arrays in place and calls again with the same objects: the answer is the one for the edited
@@ -300,6 +315,8 @@ def runtime(ck, tier, deep):
                 getattr(__import__("abel"), m_).cache_cleanup()
             call(f, ea, ek)
             map_arrays(ea, edit), map_arrays(ek, edit)
+            if isinstance(ek.get("origin"), list):               # an origin kept in a list and moved in place
+                ek["origin"][:] = [ek["origin"][0] - 2, ek["origin"][1] + 1]
             r_edit = canon(call(f, ea, ek))
             for m_ in ("basex", "dasch", "daun", "linbasex", "rbasex"):
                 getattr(__import__("abel"), m_).cache_cleanup()
